@@ -3,11 +3,14 @@ from __future__ import annotations
 
 from sqlglot import tokens
 from sqlglot.dialects.dialect import Dialect, DialectType
-from sqlglot.generators.athena import AthenaGenerator
-from sqlglot.parsers.athena import AthenaParser
-from sqlglot.tokens import TokenType, Token
+
+# The Trino / Hive dialects must exist before the Athena generators copy their generators' TRANSFORMS:
+# creating a dialect class prunes the transforms of JSON path parts its generator does not support.
 from sqlglot.dialects.trino import Trino
 from sqlglot.dialects.hive import Hive
+from sqlglot.generators.athena import AthenaGenerator  # noqa: E402
+from sqlglot.parsers.athena import AthenaParser  # noqa: E402
+from sqlglot.tokens import TokenType, Token  # noqa: E402
 
 
 class Athena(Dialect):
